@@ -198,7 +198,20 @@ func runSim(reqs []string, prefix []int) execOut {
 
 // --- plugins -----------------------------------------------------------------
 
+// nestedPrefix marks a scenario where the plugins sit on an `if` statement whose body has a statement under
+// `falco-ignore-next-line` carrying a plugin of its own (ignored in every run, by design)
+const nestedPrefix = "nested:"
+
 func pluginVCL(plugins []string) string {
+	if len(plugins) > 0 && strings.HasPrefix(plugins[0], nestedPrefix) {
+		var b strings.Builder
+		b.WriteString("backend be1 { .host = \"example.com\"; .port = \"80\"; }\nsub vcl_recv {\n#FASTLY recv\n")
+		for _, p := range plugins {
+			b.WriteString("  // @plugin: " + strings.TrimPrefix(p, nestedPrefix) + "\n")
+		}
+		b.WriteString("  if (req.http.A) {\n    set req.http.Y = \"1\";\n    // falco-ignore-next-line\n    // @plugin: p4 1\n    set req.http.X = \"1\";\n    set req.http.Z = \"1\";\n  }\n  return(lookup);\n}\n")
+		return b.String()
+	}
 	var b strings.Builder
 	b.WriteString("backend be1 { .host = \"example.com\"; .port = \"80\"; }\nsub vcl_recv {\n#FASTLY recv\n")
 	for _, p := range plugins {
@@ -211,7 +224,7 @@ func pluginVCL(plugins []string) string {
 func expectedPluginDiags(plugins []string) []string {
 	var out []string
 	for _, p := range plugins {
-		f := strings.Fields(p)
+		f := strings.Fields(strings.TrimPrefix(p, nestedPrefix))
 		name, arg := f[0], "1"
 		if len(f) > 1 {
 			arg = f[1]
@@ -293,6 +306,7 @@ func run(c Case) engine.Result {
 	}
 	outcomes := map[string]int{}
 	seen := map[string]bool{}
+	stuck := false
 	add := func(class, what string, prefix []int, tr vsched.Trace) {
 		if seen[class] {
 			return
@@ -303,6 +317,10 @@ func run(c Case) engine.Result {
 	visit := func(prefix []int, x execOut) bool {
 		tr := x.Trace
 		outcomes[x.Vector]++
+		if tr.Stuck {
+			stuck = true
+			return false
+		}
 		if tr.Diverged != "" {
 			add("harness|replay-divergence", "replaying a schedule prefix diverged: "+tr.Diverged, prefix, tr)
 			return false
@@ -363,7 +381,7 @@ func run(c Case) engine.Result {
 	}
 	st := ex.Explore()
 	// determinism: the default schedule twice gives the same observation
-	if len(res.Findings) == 0 {
+	if len(res.Findings) == 0 && !stuck {
 		var a, b execOut
 		if c.Kind == "sim" {
 			a, b = runSim(c.Requests, nil), runSim(c.Requests, nil)
@@ -377,6 +395,10 @@ func run(c Case) engine.Result {
 	}
 	res.Steps = st.Executions
 	res.Outcome = fmt.Sprintf("%s n=%d outcomes=%d", c.Kind, len(c.Requests)+len(c.Plugins), len(outcomes))
+	if stuck {
+		st.Capped = true
+		res.Outcome = c.Kind + " stuck"
+	}
 	addStats(c, st, len(outcomes), len(allowed))
 	return res
 }
@@ -553,6 +575,14 @@ func gen18(tier string, emit func(Case)) {
 	if thorough {
 		pplan = []pp{{2, -1, args}, {3, 3, args}, {4, 2, []string{"1", "2", "fail"}}}
 	}
+	// plugins on a compound statement with an ignored nested statement
+	for _, a := range []string{"1", "2"} {
+		for _, b := range []string{"1", "fail"} {
+			emit(Case{Kind: "plugin", Plugins: []string{nestedPrefix + "p1 " + a, nestedPrefix + "p2 " + b}, Bound: pplan[0].bound})
+		}
+	}
+	emit(Case{Kind: "plugin", Plugins: []string{nestedPrefix + "p1 2", nestedPrefix + "p2 2", nestedPrefix + "p3 1"}, Bound: pplan[1].bound})
+	emit(Case{Kind: "race-plugin", Plugins: []string{nestedPrefix + "p1 2", nestedPrefix + "p2 2"}})
 	for _, p := range pplan {
 		var rec func(i int, cur []string)
 		rec = func(i int, cur []string) {
@@ -622,7 +652,7 @@ func init() {
 					multi++
 				}
 				if s.Capped {
-					rep.Cap(fmt.Sprintf("scenario %q stopped at the execution cap %d", s.Scenario, maxExec()))
+					rep.Cap(fmt.Sprintf("scenario %q was not explored completely (execution cap %d reached, or an execution blocked in an operation the scheduler does not own - channel, condition variable, I/O - and was abandoned)", s.Scenario, maxExec()))
 				}
 			}
 			byCost := append([]stat{}, all...)
